@@ -8,6 +8,17 @@
 
 package pfcpiface
 
+import (
+	"context"
+	"net"
+	"sync"
+)
+
+var _ context.Context
+
+var _ net.IP
+var _ sync.Mutex
+
 // ---------------------------------------------------------------------------
 // Ghost built-ins. They are interpreted by the verifier (govc) and never run.
 // ---------------------------------------------------------------------------
@@ -43,6 +54,25 @@ func gint(name string) int { panic("ghost builtin") }
 
 // typeIs reports whether the dynamic type of x is T.
 func typeIs[T any](x any) bool { panic("ghost builtin") }
+
+// held reports whether the current goroutine holds mutex m (*sync.Mutex or *sync.RWMutex).
+func held[M any](m *M) bool { panic("ghost builtin") }
+
+// Ghost logs: glen(log) entries so far, gentry(log, k) the identifier of the k-th entry,
+// gfield / gfieldS(field, entry) an (immutable) field of an entry.
+func glen(log string) int { panic("ghost builtin") }
+
+func gentry(log string, k int) int { panic("ghost builtin") }
+
+func gfield(field string, entry int) uint64 { panic("ghost builtin") }
+
+func gfieldS(field string, entry int) string { panic("ghost builtin") }
+
+// mulGE(a, ka, b, c, kbc): a*ka >= b*c*kbc over the mathematical integers.
+func mulGE(a, ka, b, c, kbc uint64) bool { panic("ghost builtin") }
+
+// refOf is the identity of the object a pointer refers to (0 for nil).
+func refOf[T any](p *T) int { panic("ghost builtin") }
 
 // nonNil reports whether a pointer, slice, or interface payload reference is non-nil.
 func nonNil[T any](x T) bool { panic("ghost builtin") }
@@ -119,3 +149,187 @@ func specCartCovered(rules []portRangeTernaryCartesianProduct, sp, dp uint16) bo
 //@   loop 1 invariant C17.cart.src.inv: specCartCovered(rules, sp, dp) <==> (exists a int :: lo(srcTernaryRules) <= a && a < lo(srcTernaryRules)+rangeidx+1 && specRuleMatches(at(srcTernaryRules, a), sp)) && specRuleMatches(dstTernary, dp)
 //@   loop 2 invariant C17.cart.dst.idx: rangeidx+1 <= len(dstTernaryRules)
 //@   loop 2 invariant C17.cart.dst.inv: specCartCovered(rules, sp, dp) <==> (exists a int :: lo(dstTernaryRules) <= a && a < lo(dstTernaryRules)+rangeidx+1 && specRuleMatches(at(dstTernaryRules, a), dp)) && specRuleMatches(srcTernary, sp)
+
+// ---------------------------------------------------------------------------
+// C06: UE IP pool - in range, exclusive, sticky, conserved
+// ---------------------------------------------------------------------------
+
+// specIPVal is the address denoted by the byte sequence of ip (a function of the
+// bytes only; uninterpreted).
+func specIPVal(ip []byte) int { panic("ghost") }
+
+// specPoolUsable: v is an address the pool may hand out (inside the configured
+// prefix, neither its network nor its broadcast address). Fixed per pool object.
+func specPoolUsable(i *IPPool, v int) bool { panic("ghost") }
+
+// specPoolSize: the number of usable addresses of the pool. Fixed per pool object.
+func specPoolSize(i *IPPool) int { panic("ghost") }
+
+func poolFreeUsable(i *IPPool) bool {
+	return forall(func(a int) bool {
+		return implies(lo(i.freePool) <= a && a < hi(i.freePool), specPoolUsable(i, specIPVal(at(i.freePool, a))))
+	})
+}
+
+func poolInvUsable(i *IPPool) bool {
+	return forall(func(k uint64) bool { return implies(has(i.inventory, k), specPoolUsable(i, specIPVal(i.inventory[k]))) })
+}
+
+func poolFreeDistinct(i *IPPool) bool {
+	return forall(func(a, b int) bool {
+		return implies(lo(i.freePool) <= a && a < hi(i.freePool) && lo(i.freePool) <= b && b < hi(i.freePool) && a != b,
+			specIPVal(at(i.freePool, a)) != specIPVal(at(i.freePool, b)))
+	})
+}
+
+func poolInvDistinct(i *IPPool) bool {
+	return forall(func(k1, k2 uint64) bool {
+		return implies(has(i.inventory, k1) && has(i.inventory, k2) && k1 != k2, specIPVal(i.inventory[k1]) != specIPVal(i.inventory[k2]))
+	})
+}
+
+func poolCrossDistinct(i *IPPool) bool {
+	return forall(func(a int, k uint64) bool {
+		return implies(lo(i.freePool) <= a && a < hi(i.freePool) && has(i.inventory, k), specIPVal(at(i.freePool, a)) != specIPVal(i.inventory[k]))
+	})
+}
+
+func poolConserved(i *IPPool) bool {
+	return len(i.freePool)+len(i.inventory) == specPoolSize(i)
+}
+
+// poolInv is the representation invariant of IPPool.
+func poolInv(i *IPPool) bool {
+	return i != nil && i.inventory != nil && poolFreeUsable(i) && poolInvUsable(i) && poolFreeDistinct(i) &&
+		poolInvDistinct(i) && poolCrossDistinct(i) && poolConserved(i)
+}
+
+//@ guarded IPPool.freePool, IPPool.inventory by IPPool.mu
+
+//@ func (i *IPPool) LookupOrAllocIP(seid uint64) (ip net.IP, err error)
+//@   requires poolInv(i) && !held(&i.mu)
+//@   ensures C06.lock: !held(&i.mu)
+//@   ensures C06.inv.freeUsable: poolFreeUsable(i)
+//@   ensures C06.inv.invUsable: poolInvUsable(i)
+//@   ensures C06.inv.freeDistinct: poolFreeDistinct(i)
+//@   ensures C06.inv.invDistinct: poolInvDistinct(i)
+//@   ensures C06.inv.crossDistinct: poolCrossDistinct(i)
+//@   ensures C06.inv.conserved: poolConserved(i) && i.inventory != nil
+//@   ensures C06.alloc.inRange: err == nil ==> specPoolUsable(i, specIPVal(ip))
+//@   ensures C06.alloc.recorded: err == nil ==> has(i.inventory, seid) && specIPVal(i.inventory[seid]) == specIPVal(ip)
+//@   ensures C06.alloc.exclusive: err == nil ==> (forall k uint64 :: has(i.inventory, k) && k != seid ==> specIPVal(i.inventory[k]) != specIPVal(ip))
+//@   ensures C06.alloc.sticky: old[bool](has(i.inventory, seid)) ==> err == nil && specIPVal(ip) == old[int](specIPVal(i.inventory[seid])) && len(i.freePool) == old[int](len(i.freePool)) && len(i.inventory) == old[int](len(i.inventory))
+//@   ensures C06.alloc.refuse: err != nil <==> !old[bool](has(i.inventory, seid)) && old[int](len(i.freePool)) == 0
+//@   ensures C06.alloc.refuseFull: err != nil ==> len(i.inventory) == specPoolSize(i) && len(i.inventory) == old[int](len(i.inventory))
+//@   ensures C06.alloc.others: forall k uint64 :: k != seid ==> (has(i.inventory, k) <==> old[bool](has(i.inventory, k))) && (has(i.inventory, k) ==> specIPVal(i.inventory[k]) == old[int](specIPVal(i.inventory[k])))
+//@   ensures C06.alloc.takesHead: err == nil && !old[bool](has(i.inventory, seid)) ==> specIPVal(ip) == old[int](specIPVal(i.freePool[0])) && len(i.freePool) == old[int](len(i.freePool))-1
+
+//@ func (i *IPPool) DeallocIP(seid uint64) (err error)
+//@   requires poolInv(i) && !held(&i.mu)
+//@   ensures C06.lock: !held(&i.mu)
+//@   ensures C06.inv.freeUsable: poolFreeUsable(i)
+//@   ensures C06.inv.invUsable: poolInvUsable(i)
+//@   ensures C06.inv.freeDistinct: poolFreeDistinct(i)
+//@   ensures C06.inv.invDistinct: poolInvDistinct(i)
+//@   ensures C06.inv.crossDistinct: poolCrossDistinct(i)
+//@   ensures C06.inv.conserved: poolConserved(i) && i.inventory != nil
+//@   ensures C06.dealloc.unknown: err != nil <==> !old[bool](has(i.inventory, seid))
+//@   ensures C06.dealloc.unknownNoop: err != nil ==> len(i.freePool) == old[int](len(i.freePool)) && len(i.inventory) == old[int](len(i.inventory))
+//@   ensures C06.dealloc.released: err == nil ==> !has(i.inventory, seid) && len(i.freePool) == old[int](len(i.freePool))+1 && specIPVal(at(i.freePool, hi(i.freePool)-1)) == old[int](specIPVal(i.inventory[seid]))
+//@   ensures C06.dealloc.others: forall k uint64 :: k != seid ==> (has(i.inventory, k) <==> old[bool](has(i.inventory, k))) && (has(i.inventory, k) ==> specIPVal(i.inventory[k]) == old[int](specIPVal(i.inventory[k])))
+
+// ---------------------------------------------------------------------------
+// C07: UP-chosen identifiers are unique among live users
+// ---------------------------------------------------------------------------
+
+//@ guarded FTEIDGenerator.offset, FTEIDGenerator.usedMap by FTEIDGenerator.lock
+
+//@ func (idGenerator *FTEIDGenerator) Allocate() (id uint32, err error)
+//@   requires idGenerator != nil && idGenerator.usedMap != nil && !held(&idGenerator.lock)
+//@   requires idGenerator.offset < 0xFFFFFFFF
+//@   ensures C07.teid.lock: !held(&idGenerator.lock)
+//@   ensures C07.teid.nonzero: err == nil ==> id != 0
+//@   ensures C07.teid.fresh: err == nil ==> !old[bool](has(idGenerator.usedMap, id-1))
+//@   ensures C07.teid.marked: err == nil ==> has(idGenerator.usedMap, id-1)
+//@   ensures C07.teid.frame: forall k uint32 :: err != nil || k != id-1 ==> (has(idGenerator.usedMap, k) <==> old[bool](has(idGenerator.usedMap, k)))
+//@   ensures C07.teid.offset: idGenerator.offset < 0xFFFFFFFF && idGenerator.usedMap != nil
+//@   loop 1 invariant C07.teid.loop.offset: idGenerator.offset < 0xFFFFFFFF && offsetBegin < 0xFFFFFFFF
+//@   loop 1 invariant C07.teid.loop.map: forall k uint32 :: has(idGenerator.usedMap, k) <==> old[bool](has(idGenerator.usedMap, k))
+//@   loop 1 invariant C07.teid.loop.lock: held(&idGenerator.lock)
+
+//@ func (idGenerator *FTEIDGenerator) FreeID(id uint32)
+//@   requires idGenerator != nil && !held(&idGenerator.lock)
+//@   ensures C07.free.lock: !held(&idGenerator.lock)
+//@   ensures C07.free.removed: id != 0 ==> !has(idGenerator.usedMap, id-1)
+//@   ensures C07.free.frame: forall k uint32 :: id == 0 || k != id-1 ==> (has(idGenerator.usedMap, k) <==> old[bool](has(idGenerator.usedMap, k)))
+
+//@ func (idGenerator *FTEIDGenerator) IsAllocated(id uint32) (r bool)
+//@   requires idGenerator != nil && !held(&idGenerator.lock)
+//@   ensures C07.isalloc: r <==> id != 0 && has(idGenerator.usedMap, id-1)
+//@   ensures C07.isalloc.lock: !held(&idGenerator.lock)
+
+// ---------------------------------------------------------------------------
+// C09: QoS is enforced as signalled (BESS encoder of one QER)
+// ---------------------------------------------------------------------------
+
+// Ghost log "qer": one entry per QosCommandAddArg handed to appQERLookup / sessionQERLookup.
+// Fields: level (0 application table, 1 session table), iface, gate, cir, pir, cbs, pbs, ebs,
+// qerid, fseid, qfi.
+
+func specQosCfg(b *bess, qfi uint8) *QosConfigVal {
+	if has(b.qciQosMap, qfi) {
+		return b.qciQosMap[qfi]
+	}
+
+	return b.qciQosMap[0]
+}
+
+func specQerEntry(e int, level uint64, iface uint8, gate, cir, pir, cbs, pbs, ebs uint64, q qer) bool {
+	return gfield("qer.level", e) == level && gfield("qer.iface", e) == uint64(iface) && gfield("qer.gate", e) == gate &&
+		gfield("qer.cir", e) == cir && gfield("qer.pir", e) == pir && gfield("qer.cbs", e) == cbs &&
+		gfield("qer.pbs", e) == pbs && gfield("qer.ebs", e) == ebs && gfield("qer.qerid", e) == uint64(q.qerID) &&
+		gfield("qer.fseid", e) == q.fseID && gfield("qer.qfi", e) == uint64(q.qfi)
+}
+
+// specGateOK: the gate/rate part of one direction of the property.
+func specGateOK(e int, status uint8, mbr, gbr uint64) bool {
+	if status != 0 {
+		return gfield("qer.gate", e) == qerGateStatusDrop
+	}
+	if mbr == 0 && gbr == 0 {
+		return gfield("qer.gate", e) == qerGateUnmeter
+	}
+
+	return gfield("qer.gate", e) == qerGateMeter &&
+		implies(gbr <= mbr && mbr < 1<<40, gfield("qer.pir", e) == mbr*125 && gfield("qer.cir", e) == maxUint64(gbr*125, 1))
+}
+
+//@ func (b *bess) addApplicationQER(ctx context.Context, gate uint64, srcIface uint8, cir uint64, pir uint64, cbs uint64, pbs uint64, ebs uint64, qer qer)
+//@   trusted
+//@   appends qer
+//@   ensures specQerEntry(gentry("qer", glen("qer")-1), 0, srcIface, gate, cir, pir, cbs, pbs, ebs, qer)
+
+//@ func (b *bess) addSessionQER(ctx context.Context, gate uint64, srcIface uint8, cir uint64, pir uint64, cbs uint64, pbs uint64, ebs uint64, qer qer)
+//@   trusted
+//@   appends qer
+//@   ensures specQerEntry(gentry("qer", glen("qer")-1), 1, srcIface, gate, cir, pir, cbs, pbs, ebs, qer)
+
+//@ func calcBurstSizeFromRate(kbps uint64, ms uint64) (r uint64)
+//@   ensures C09.burst.floor@thorough: kbps < 1<<40 && ms < 1<<32 ==> mulGE(r, 1000, kbps, ms, 125)
+
+//@ func (b *bess) addQER#1() free(b *bess, qer qer)
+//@   lemmas bvarith
+//@   requires b != nil && b.qciQosMap != nil && has(b.qciQosMap, 0)
+//@   requires forall k uint8 :: has(b.qciQosMap, k) ==> b.qciQosMap[k] != nil
+//@   ensures C09.bess.calls: qer.qosLevel <= 1 ==> glen("qer") == old[int](glen("qer"))+2
+//@   ensures C09.bess.none: qer.qosLevel > 1 ==> glen("qer") == old[int](glen("qer"))
+//@   ensures C09.bess.ul.key: qer.qosLevel <= 1 ==> gfield("qer.level", gentry("qer", old[int](glen("qer")))) == uint64(qer.qosLevel) && gfield("qer.iface", gentry("qer", old[int](glen("qer")))) == access && gfield("qer.qerid", gentry("qer", old[int](glen("qer")))) == uint64(qer.qerID) && gfield("qer.fseid", gentry("qer", old[int](glen("qer")))) == qer.fseID && gfield("qer.qfi", gentry("qer", old[int](glen("qer")))) == uint64(qer.qfi)
+//@   ensures C09.bess.dl.key: qer.qosLevel <= 1 ==> gfield("qer.level", gentry("qer", old[int](glen("qer"))+1)) == uint64(qer.qosLevel) && gfield("qer.iface", gentry("qer", old[int](glen("qer"))+1)) == core && gfield("qer.qerid", gentry("qer", old[int](glen("qer"))+1)) == uint64(qer.qerID) && gfield("qer.fseid", gentry("qer", old[int](glen("qer"))+1)) == qer.fseID && gfield("qer.qfi", gentry("qer", old[int](glen("qer"))+1)) == uint64(qer.qfi)
+//@   ensures C09.bess.ul.gate: qer.qosLevel <= 1 ==> specGateOK(gentry("qer", old[int](glen("qer"))), qer.ulStatus, qer.ulMbr, qer.ulGbr)
+//@   ensures C09.bess.dl.gate: qer.qosLevel <= 1 ==> specGateOK(gentry("qer", old[int](glen("qer"))+1), qer.dlStatus, qer.dlMbr, qer.dlGbr)
+//@   ensures C09.bess.ul.cbs: qer.qosLevel <= 1 ==> gfield("qer.cbs", gentry("qer", old[int](glen("qer")))) >= uint64(specQosCfg(b, qer.qfi).cbs) && (qer.ulGbr < 1<<40 ==> mulGE(gfield("qer.cbs", gentry("qer", old[int](glen("qer")))), 1000, qer.ulGbr, uint64(specQosCfg(b, qer.qfi).burstDurationMs), 125))
+//@   ensures C09.bess.ul.pbs: qer.qosLevel <= 1 ==> gfield("qer.pbs", gentry("qer", old[int](glen("qer")))) >= uint64(specQosCfg(b, qer.qfi).pbs) && (qer.ulMbr < 1<<40 ==> mulGE(gfield("qer.pbs", gentry("qer", old[int](glen("qer")))), 1000, qer.ulMbr, uint64(specQosCfg(b, qer.qfi).burstDurationMs), 125))
+//@   ensures C09.bess.ul.ebs: qer.qosLevel <= 1 ==> gfield("qer.ebs", gentry("qer", old[int](glen("qer")))) >= uint64(specQosCfg(b, qer.qfi).ebs) && (qer.ulMbr < 1<<40 ==> mulGE(gfield("qer.ebs", gentry("qer", old[int](glen("qer")))), 1000, qer.ulMbr, uint64(specQosCfg(b, qer.qfi).burstDurationMs), 125))
+//@   ensures C09.bess.dl.cbs: qer.qosLevel <= 1 ==> gfield("qer.cbs", gentry("qer", old[int](glen("qer"))+1)) >= uint64(specQosCfg(b, qer.qfi).cbs) && (qer.dlGbr < 1<<40 ==> mulGE(gfield("qer.cbs", gentry("qer", old[int](glen("qer"))+1)), 1000, qer.dlGbr, uint64(specQosCfg(b, qer.qfi).burstDurationMs), 125))
+//@   ensures C09.bess.dl.pbs: qer.qosLevel <= 1 ==> gfield("qer.pbs", gentry("qer", old[int](glen("qer"))+1)) >= uint64(specQosCfg(b, qer.qfi).pbs) && (qer.dlMbr < 1<<40 ==> mulGE(gfield("qer.pbs", gentry("qer", old[int](glen("qer"))+1)), 1000, qer.dlMbr, uint64(specQosCfg(b, qer.qfi).burstDurationMs), 125))
+//@   ensures C09.bess.dl.ebs: qer.qosLevel <= 1 ==> gfield("qer.ebs", gentry("qer", old[int](glen("qer"))+1)) >= uint64(specQosCfg(b, qer.qfi).ebs) && (qer.dlMbr < 1<<40 ==> mulGE(gfield("qer.ebs", gentry("qer", old[int](glen("qer"))+1)), 1000, qer.dlMbr, uint64(specQosCfg(b, qer.qfi).burstDurationMs), 125))
